@@ -9,6 +9,7 @@
 //! differing transcript line is reported.
 
 mod canon;
+mod dirty;
 mod harnesses;
 
 use harnesses::{def, run_harness, HARNESSES};
@@ -24,6 +25,9 @@ struct Triple {
     seed: u64,
     preset: String,
     n: u32,
+    /// what else happens on the thread before / around the extra "dirty context" run
+    #[serde(default)]
+    ctx: dirty::DirtyCtx,
 }
 
 /// One run in the current thread: transcript lines (+ a final `#meta` line).
@@ -47,15 +51,31 @@ const RUN2_MARK: &str = "#####-second-run-in-the-same-process-#####";
 fn child_main(rest: &[String]) -> ! {
     vcore::runner::install_quiet_panic_hook();
     let pair = rest.first().map(|s| s.as_str()) == Some("pair");
+    let dirty_ctx: Option<dirty::DirtyCtx> = if rest.first().map(|s| s.as_str()) == Some("dirty") {
+        match rest.get(5).map(|j| serde_json::from_str::<dirty::DirtyCtx>(j)) {
+            Some(Ok(c)) => Some(c),
+            _ => {
+                eprintln!("c20 dirty: missing or malformed context argument");
+                std::process::exit(4)
+            }
+        }
+    } else {
+        None
+    };
     let t = Triple {
         harness: rest.get(1).cloned().unwrap_or_default(),
         seed: rest.get(2).and_then(|s| s.parse().ok()).unwrap_or(0),
         preset: rest.get(3).cloned().unwrap_or_default(),
         n: rest.get(4).and_then(|s| s.parse().ok()).unwrap_or(0),
+        ctx: Default::default(),
     };
     let h = std::thread::Builder::new()
         .stack_size(64 << 20)
         .spawn(move || {
+            if let Some(c) = dirty_ctx {
+                // the same run, on a thread where other simulations lived and live
+                return dirty::with_dirty_context(&c, &t.harness, &t.preset, t.seed, || run_once(&t));
+            }
             let mut lines = run_once(&t)?;
             if pair {
                 // same process, same thread, back to back
@@ -86,8 +106,9 @@ fn child_main(rest: &[String]) -> ! {
 
 fn run_child(mode: &str, t: &Triple) -> Result<Vec<String>, String> {
     let exe = std::env::current_exe().map_err(|e| e.to_string())?;
+    let ctx_json = serde_json::to_string(&t.ctx).map_err(|e| e.to_string())?;
     let out = std::process::Command::new(exe)
-        .args([mode, &t.harness, &t.seed.to_string(), &t.preset, &t.n.to_string()])
+        .args([mode, &t.harness, &t.seed.to_string(), &t.preset, &t.n.to_string(), &ctx_json])
         .env_remove("VERIF_SEED")
         .output()
         .map_err(|e| format!("spawn child: {}", e))?;
@@ -356,12 +377,14 @@ fn check_triple(t: &Triple, ctx: &mut CaseCtx<'_>) -> Result<(), String> {
     // three fresh processes, concurrently: one runs the triple twice back to back on one
     // thread (the "same process" pair: nothing of this checker shares its address space, and
     // the simulators' stderr chatter stays out of the checker's output), two run it once each
-    let (pair, c1, c2) = std::thread::scope(|s| {
+    let (pair, c1, c2, d) = std::thread::scope(|s| {
         let hp = s.spawn(|| run_child("pair", t));
         let h1 = s.spawn(|| run_child("child", t));
         let h2 = s.spawn(|| run_child("child", t));
-        (hp.join(), h1.join(), h2.join())
+        let hd = s.spawn(|| run_child("dirty", t));
+        (hp.join(), h1.join(), h2.join(), hd.join())
     });
+    let d = d.map_err(|_| "child runner thread died".to_string())??;
     let pair = pair.map_err(|_| "child runner thread died".to_string())??;
     let cut = pair
         .iter()
@@ -371,7 +394,22 @@ fn check_triple(t: &Triple, ctx: &mut CaseCtx<'_>) -> Result<(), String> {
     let p2: Vec<String> = pair[cut + 1..].to_vec();
     let c1 = c1.map_err(|_| "child runner thread died".to_string())??;
     let c2 = c2.map_err(|_| "child runner thread died".to_string())??;
-    ctx.add_evaluations(3);
+    ctx.add_evaluations(4);
+    if !t.ctx.held.is_empty() {
+        ctx.label("dirty:held_objects");
+    }
+    if t.ctx.held.iter().any(|h| h.drop_at % 4 == 1 || h.drop_at % 4 == 2) {
+        ctx.label("dirty:drop_while_alive");
+    }
+    if t.ctx.probe_after_construct || t.ctx.probe_mid {
+        ctx.label("dirty:overlapping_probe");
+    }
+    if t.ctx.ambient.is_some() {
+        ctx.label("dirty:ambient_preset");
+    }
+    if !t.ctx.warmups.is_empty() {
+        ctx.label("dirty:warmups");
+    }
     ctx.label(&format!("preset:{}:{}", t.harness, t.preset));
     if p1.first().map(|l| l.starts_with("PANIC")).unwrap_or(false) {
         ctx.label("panicked");
@@ -388,12 +426,17 @@ fn check_triple(t: &Triple, ctx: &mut CaseCtx<'_>) -> Result<(), String> {
         ctx.label(if faults == "None" { "faults:n/a" } else if faults == "Some(0)" { "faults:0" } else { "faults:>=1" });
     }
     let hashes = [transcript_hash(&p1), transcript_hash(&p2), transcript_hash(&c1), transcript_hash(&c2)];
-    if hashes.iter().all(|h| *h == hashes[0]) && p1 == p2 && p1 == c1 && p1 == c2 {
+    if hashes.iter().all(|h| *h == hashes[0]) && p1 == p2 && p1 == c1 && p1 == c2 && p1 == d {
         ctx.label("identical");
         return Ok(());
     }
     // earliest divergence from the first in-process run
-    let runs: [(&str, &Vec<String>); 3] = [("second in-process run", &p2), ("child process 1", &c1), ("child process 2", &c2)];
+    let runs: [(&str, &Vec<String>); 4] = [
+        ("second in-process run", &p2),
+        ("child process 1", &c1),
+        ("child process 2", &c2),
+        ("the run in a dirty context (other simulations before/around it on the same thread)", &d),
+    ];
     let mut best: Option<(usize, &str, &Vec<String>)> = None;
     for (name, r) in runs.iter() {
         if let Some(at) = first_diff(&p1, r) {
@@ -410,7 +453,14 @@ fn check_triple(t: &Triple, ctx: &mut CaseCtx<'_>) -> Result<(), String> {
         }
     };
     let in_process = first_diff(&p1, &p2).is_some();
-    ctx.label(if in_process { "diverged:in-process" } else { "diverged:cross-process-only" });
+    let only_dirty = p1 == p2 && p1 == c1 && p1 == c2;
+    ctx.label(if only_dirty {
+        "diverged:dirty-context-only"
+    } else if in_process {
+        "diverged:in-process"
+    } else {
+        "diverged:cross-process-only"
+    });
     if let Some(id) = classify(t, at, &p1, other) {
         // every differing run must show the same listed discrepancy
         let all_match = runs.iter().all(|(_, r)| match first_diff(&p1, r) {
@@ -430,7 +480,13 @@ fn check_triple(t: &Triple, ctx: &mut CaseCtx<'_>) -> Result<(), String> {
         t.preset,
         t.seed,
         t.n,
-        if in_process { "already inside one process" } else { "between processes only" },
+        if only_dirty {
+            "the four pristine runs agree; only the run in the dirty context differs"
+        } else if in_process {
+            "already inside one process"
+        } else {
+            "between processes only"
+        },
         who,
         at,
         key_of(&show(&p1, at)),
@@ -438,7 +494,40 @@ fn check_triple(t: &Triple, ctx: &mut CaseCtx<'_>) -> Result<(), String> {
         clip(show(other, at)),
         if at > 0 { clip(show(&p1, at - 1)) } else { "<none>".into() },
         hashes
-    ))
+    ) + &if only_dirty { format!("\n    dirty context: {:?}", t.ctx) } else { String::new() })
+}
+
+fn dirty_strategy() -> impl Strategy<Value = dirty::DirtyCtx> {
+    let warm = (any::<u16>(), 0u64..50, 20u32..80).prop_map(|(i, seed, n)| {
+        let (h, p) = dirty::WARM_POOL[(i as usize * dirty::WARM_POOL.len()) >> 16];
+        dirty::Warm {
+            harness: h.to_string(),
+            seed,
+            preset: p.to_string(),
+            n,
+        }
+    });
+    let held = (0u8..5, 0u64..50, 0u8..4, 0u8..4).prop_map(|(kind, seed, preset, drop_at)| dirty::Held {
+        // simulations that own a fault preset twice as often as the others
+        kind: if kind >= 3 && seed % 2 == 0 { kind - 3 } else { kind },
+        seed,
+        preset,
+        drop_at,
+    });
+    (
+        proptest::collection::vec(warm, 0..=3),
+        proptest::collection::vec(held, 0..=3),
+        proptest::option::of(0u8..5),
+        any::<bool>(),
+        any::<bool>(),
+    )
+        .prop_map(|(warmups, held, ambient, probe_after_construct, probe_mid)| dirty::DirtyCtx {
+            warmups,
+            held,
+            ambient,
+            probe_after_construct,
+            probe_mid,
+        })
 }
 
 fn triple_strategy(hname: &'static str, thorough: bool) -> impl Strategy<Value = Triple> {
@@ -450,18 +539,20 @@ fn triple_strategy(hname: &'static str, thorough: bool) -> impl Strategy<Value =
         any::<u16>(),
         // below the non-trivial threshold only rarely
         prop_oneof![1 => 1u32..lo, 9 => lo..=hi],
+        dirty_strategy(),
     )
-        .prop_map(move |(seed, pi, n)| Triple {
+        .prop_map(move |(seed, pi, n, ctx)| Triple {
             harness: hname.to_string(),
             seed,
             preset: presets[(pi as usize * presets.len()) >> 16].to_string(),
             n,
+            ctx,
         })
 }
 
 fn main() {
     let args = vcore::parse_args();
-    if matches!(args.rest.first().map(|s| s.as_str()), Some("child") | Some("pair")) {
+    if matches!(args.rest.first().map(|s| s.as_str()), Some("child") | Some("pair") | Some("dirty")) {
         child_main(&args.rest);
     }
     let s = Session::new(
@@ -469,8 +560,8 @@ fn main() {
         Level::Exploration,
         "per harness (executor, list, set, hash, zset, txn, gcounter, pncounter, orset, vclock, dst, redis_dst, multi_broadcast, multi_partitioned, partition, \
          streaming, compaction, wal, connection, pipeline, scenario, event_sim, sim_store) generated triples (seed: small / arbitrary u64, preset: every preset \
-         constructor of the harness plus a few generated configurations, n: operation count); each triple = 2 runs in this process + 2 runs in fresh child processes, \
-         four canonical transcripts compared line by line. non-trivial = the run performed >= 100 operations and, where the harness/preset can inject faults, \
+         constructor of the harness plus a few generated configurations, n: operation count); each triple = 2 runs back to back in one fresh process + 1 run in each of two more fresh processes + 1 run in a generated dirty context \
+         (other simulations run/held/dropped before and around it on the same thread, ambient BUGGIFY preset set before construction); five canonical transcripts compared line by line. non-trivial = the run performed >= 100 operations and, where the harness/preset can inject faults, \
          at least one fault was injected; distinct by (harness, seed, preset, n)",
         &args,
     );
@@ -497,6 +588,7 @@ fn main() {
         seed,
         preset: p.into(),
         n,
+        ctx: Default::default(),
     };
     probe(KF01, vec![tr("multi_partitioned", 1, "rf3", 120), tr("multi_partitioned", 2, "rf3", 120), tr("multi_partitioned", 3, "rf3_lossy", 120)]);
     probe(KF02, vec![tr("dst", 1, "chaos8", 1200), tr("dst", 2, "chaos8", 1200), tr("dst", 3, "chaos8", 1200), tr("dst", 4, "chaos8", 1200)]);
